@@ -1,7 +1,517 @@
 package main
 
-import "verifharness/internal/rng"
+import (
+	"bytes"
+	"fmt"
+	"strconv"
+	"time"
 
-func modeDecode(root *rng.R, n int) {}
-func modeDamage(root *rng.R, n int) {}
-func modeLookup(root *rng.R, n int) {}
+	"github.com/b2broker/simplefix-go/fix"
+	"github.com/b2broker/simplefix-go/fix/encoding"
+
+	"verifharness/internal/desc"
+	"verifharness/internal/gen"
+	"verifharness/internal/rng"
+)
+
+// withWatchdog runs f; if it does not return within d the process reports a hang and exits.
+func withWatchdog(d time.Duration, what func() string, f func()) {
+	done := make(chan struct{})
+	go func() {
+		defer close(done)
+		f()
+	}()
+	select {
+	case <-done:
+	case <-time.After(d):
+		emit(&Rec{Mode: "hang", Case: what(), Impl: "TIMEOUT", Oracle: map[string]string{"C11": "fail: decoder did not return within " + d.String()}})
+		out.Flush()
+		panic("hang")
+	}
+}
+
+// frame wraps a body (which must end with SOH or be empty) into an integrity-passing message.
+func frame(bsTag, blTag, csTag, bs string, body []byte) []byte {
+	head := []byte(bsTag + "=" + bs + "\x01" + blTag + "=" + strconv.Itoa(len(body)) + "\x01")
+	pre := append(head, body...)
+	sum := 0
+	for _, c := range pre {
+		sum += int(c)
+	}
+	return append(pre, []byte(fmt.Sprintf("%s=%03d\x01", csTag, sum%256))...)
+}
+
+// collectTags lists (tag, kind) of the template: 'K' plain, 'G' count tag, 'F' first member of a group.
+func collectTags(items []*desc.Item, first bool, acc *[][2]string) {
+	for i, it := range items {
+		switch it.Kind {
+		case 'K':
+			k := "K"
+			if first && i == 0 {
+				k = "F"
+			}
+			*acc = append(*acc, [2]string{it.Tag, k})
+		case 'C':
+			collectTags(it.Items, false, acc)
+		case 'G':
+			*acc = append(*acc, [2]string{it.Tag, "G"})
+			collectTags(it.Tpl, true, acc)
+		}
+	}
+}
+
+func hostileBody(r *rng.R, m *desc.Msg) []byte {
+	var tags [][2]string
+	collectTags(m.Header, false, &tags)
+	collectTags(m.Body, false, &tags)
+	collectTags(m.Trailer, false, &tags)
+	var segs [][]byte
+	n := r.Range(0, 8)
+	segs = append(segs, []byte(m.MtTag+"="+m.Mt))
+	for i := 0; i < n; i++ {
+		var tag string
+		if len(tags) > 0 && r.Chance(4, 5) {
+			tag = tags[r.Intn(len(tags))][0]
+		} else {
+			tag = strconv.Itoa(r.Range(1, 999))
+		}
+		var seg []byte
+		switch r.Intn(12) {
+		case 0:
+			seg = []byte(tag) // no '='
+		case 1:
+			seg = []byte(tag + "=") // empty value
+		case 2:
+			seg = []byte{} // repeated delimiter
+		case 3:
+			seg = []byte("=" + tag)
+		case 4:
+			seg = []byte(tag + "=" + strconv.Itoa(r.Range(-2, 5))) // plausible count
+		case 5:
+			seg = []byte(tag + "=" + strconv.Itoa(r.Range(0, 3)) + "=")
+		case 6:
+			seg = append([]byte(tag+"="), byte(r.Intn(256)))
+		default:
+			v := []byte(strconv.Itoa(r.Range(0, 99)))
+			if r.Bool() {
+				v = []byte{byte(r.Range(32, 126)), byte(r.Range(32, 126))}
+			}
+			seg = append([]byte(tag+"="), v...)
+		}
+		segs = append(segs, seg)
+	}
+	if r.Chance(1, 6) {
+		segs = segs[1:] // drop MsgType
+	}
+	body := bytes.Join(segs, []byte{1})
+	if len(segs) > 0 {
+		body = append(body, 1)
+	}
+	// the delimiter byte inside values is legal here: the decoder must not crash whatever it sees
+	return body
+}
+
+func randomBytes(r *rng.R, m *desc.Msg) []byte {
+	n := r.Range(0, 40)
+	if r.Chance(1, 8) {
+		n = r.Range(40, 200)
+	}
+	alpha := []byte{1, 1, '=', '=', '0', '1', '2', '8', '9', '3', '5', 'A', 0, 255}
+	var tags [][2]string
+	collectTags(m.Header, false, &tags)
+	collectTags(m.Body, false, &tags)
+	var b []byte
+	for len(b) < n {
+		switch r.Intn(6) {
+		case 0:
+			if len(tags) > 0 {
+				b = append(b, tags[r.Intn(len(tags))][0]...)
+			}
+		case 1:
+			b = append(b, byte(r.Intn(256)))
+		case 2:
+			b = append(b, []byte(m.BsTag+"=")...)
+		default:
+			b = append(b, alpha[r.Intn(len(alpha))])
+		}
+	}
+	return b
+}
+
+// mutateValid damages a valid message structurally (fields dropped, duplicated, counts changed,
+// cut at a group boundary) and re-frames it so that it passes the integrity check.
+func mutateValid(r *rng.R, m *desc.Msg, b []byte) []byte {
+	fs, ok := splitFields(b)
+	if !ok || len(fs) < 4 {
+		return b
+	}
+	segs := [][]byte{}
+	for _, f := range fs[2 : len(fs)-1] { // from MsgType to the field before CheckSum
+		segs = append(segs, append(append(append([]byte{}, f.tag...), '='), f.val...))
+	}
+	k := r.Range(1, 3)
+	for j := 0; j < k && len(segs) > 0; j++ {
+		i := r.Intn(len(segs))
+		switch r.Intn(8) {
+		case 0: // drop
+			segs = append(segs[:i], segs[i+1:]...)
+		case 1: // duplicate
+			segs = append(segs[:i+1], segs[i:]...)
+		case 2: // cut here
+			segs = segs[:i]
+		case 3: // strip value
+			if e := bytes.IndexByte(segs[i], '='); e >= 0 {
+				segs[i] = segs[i][:e+1]
+			}
+		case 4: // strip '='
+			if e := bytes.IndexByte(segs[i], '='); e >= 0 {
+				segs[i] = segs[i][:e]
+			}
+		case 5: // change a number
+			if e := bytes.IndexByte(segs[i], '='); e >= 0 {
+				segs[i] = append(segs[i][:e+1:e+1], []byte(strconv.Itoa(r.Range(-1, 6)))...)
+			}
+		case 6: // swap with neighbour
+			if i+1 < len(segs) {
+				segs[i], segs[i+1] = segs[i+1], segs[i]
+			}
+		case 7: // empty segment
+			segs[i] = []byte{}
+		}
+	}
+	body := bytes.Join(segs, []byte{1})
+	if len(segs) > 0 {
+		body = append(body, 1)
+	}
+	return frame(m.BsTag, m.BlTag, m.CsTag, m.Bs, body)
+}
+
+func runDecode(id int, tm *desc.Msg, data []byte, tag string) {
+	rec := &Rec{ID: id, Mode: "decode", Oracle: map[string]string{}, Tags: []string{tag, sizeTag(len(data))}, Size: len(data)}
+	rec.Case = "UNMARSHAL " + oracleTable(needOracle(tm), data) + " " + tm.Enc() + " " + desc.Hex(data)
+	var impl string
+	var agree bool
+	withWatchdog(5*time.Second, func() string { return rec.Case }, func() {
+		impl, _, agree = unmarshalCase(tm, data)
+	})
+	rec.Impl = impl
+	switch {
+	case impl == "PANIC":
+		rec.Oracle["C11"] = "fail: the decoder panicked"
+	case !agree:
+		rec.Oracle["C11"] = "fail: strict and non-strict modes disagree"
+	default:
+		rec.Oracle["C11"] = "ok"
+	}
+	rec.Tags = append(rec.Tags, "result="+impl[:min(len(impl), 3)])
+	emit(rec)
+}
+
+func min(a, b int) int {
+	if a < b {
+		return a
+	}
+	return b
+}
+
+func runValByTag(id int, data []byte, tag string, label string) {
+	rec := &Rec{ID: id, Mode: "valbytag", Oracle: map[string]string{}, Tags: []string{label}, Size: len(data)}
+	rec.Case = "VALBYTAG " + desc.Hex(data) + " " + desc.Hex([]byte(tag))
+	var v []byte
+	var err error
+	p := ""
+	withWatchdog(5*time.Second, func() string { return rec.Case }, func() {
+		p = guarded(func() { v, err = fix.ValueByTag(data, tag) })
+	})
+	switch {
+	case p != "":
+		rec.Impl = "PANIC"
+		rec.Oracle["C11"] = "fail: ValueByTag panicked: " + p
+	case err != nil:
+		rec.Impl = "ERR"
+		rec.Oracle["C11"] = "ok"
+	default:
+		rec.Impl = "OK " + desc.Hex(v)
+		rec.Oracle["C11"] = "ok"
+	}
+	emit(rec)
+}
+
+func modeDecode(root *rng.R, n int) {
+	for i := 0; i < n; i++ {
+		r := root.Fork()
+		o := gen.DefaultOpts()
+		o.FixedFraming = r.Chance(2, 3)
+		o.MaxDepth = r.Range(1, 4)
+		g := gen.New(r, o)
+		m := g.Message()
+		tm := m.TemplateMsg()
+		switch i % 5 {
+		case 0:
+			runDecode(i, tm, randomBytes(r, m), "random-bytes")
+		case 1, 2:
+			runDecode(i, tm, frame(m.BsTag, m.BlTag, m.CsTag, m.Bs, hostileBody(r, m)), "framed-hostile")
+		case 3:
+			b, _ := m.Build().ToBytes()
+			runDecode(i, tm, mutateValid(r, m, b), "mutated-valid")
+		case 4:
+			data := randomBytes(r, m)
+			if r.Bool() {
+				data, _ = m.Build().ToBytes()
+				if r.Bool() && len(data) > 0 {
+					data = data[:r.Intn(len(data))]
+				}
+			}
+			var tags [][2]string
+			collectTags(m.Header, false, &tags)
+			collectTags(m.Body, false, &tags)
+			tag := m.MtTag
+			if len(tags) > 0 && r.Chance(2, 3) {
+				tag = tags[r.Intn(len(tags))][0]
+			}
+			switch r.Intn(6) {
+			case 0:
+				tag = ""
+			case 1:
+				tag = tag + "0"
+			case 2:
+				if len(tag) > 1 {
+					tag = tag[1:]
+				}
+			}
+			runValByTag(i, data, tag, "valbytag")
+		}
+	}
+	// fixed corner cases, always
+	id := n
+	tm := &desc.Msg{BsTag: "8", BlTag: "9", CsTag: "10", MtTag: "35", Bs: "FIX.4.4", Mt: "V",
+		Body: []*desc.Item{{Kind: 'G', Tag: "146", Tpl: []*desc.Item{{Kind: 'K', Tag: "55", V: gen.Empty('S')}}}}}
+	for _, d := range [][]byte{{}, {1}, {'8'}, []byte("8="), []byte("8=\x01"), []byte("146=1"), []byte("146=1\x01"),
+		[]byte("146=1\x0155"), frame("8", "9", "10", "FIX.4.4", []byte("35=V\x01146=1\x01")),
+		frame("8", "9", "10", "FIX.4.4", []byte("35=V\x01146=1\x0155\x01")),
+		frame("8", "9", "10", "FIX.4.4", []byte("35=V\x01146=2\x0155=a\x01")),
+		frame("8", "9", "10", "FIX.4.4", []byte("35=V\x01146\x01")),
+		frame("8", "9", "10", "FIX.4.4", []byte("146=1\x01")),
+		frame("8", "9", "10", "FIX.4.4", []byte{})} {
+		runDecode(id, tm, d, "corner")
+		id++
+	}
+	for _, c := range [][2]string{{"", "8"}, {"8", "8"}, {"8=", "8"}, {"89=FIX\x01", "8"}, {"8=FIX", "8"}, {"\x018=FIX", "8"}, {"35=A\x0135=B\x01", "35"}, {"x", ""}} {
+		runValByTag(id, []byte(c[0]), c[1], "corner")
+		id++
+	}
+}
+
+// ---------- C03: exhaustive damage neighbourhood ----------
+
+func accepted(tm *desc.Msg, data []byte) (string, bool) {
+	var e1, e2 error
+	p1 := guarded(func() { e1 = encoding.Unmarshal(tm.Build(), data) })
+	p2 := guarded(func() { e2 = encoding.NewDefaultUnmarshaller(false).Unmarshal(tm.Build(), data) })
+	if p1 != "" || p2 != "" {
+		return "PANIC", false
+	}
+	if e1 == nil || e2 == nil {
+		return "OK", true
+	}
+	return "ERR", false
+}
+
+func modeDamage(root *rng.R, n int) {
+	id := 0
+	for i := 0; i < n; i++ {
+		r := root.Fork()
+		o := gen.DefaultOpts()
+		o.MaxDepth = r.Range(1, 3)
+		o.MaxWidth = 3
+		o.MaxEntries = 2
+		o.FixedFraming = r.Chance(3, 4)
+		g := gen.New(r, o)
+		m := g.Message()
+		if i%7 == 3 {
+			m.Bs = "FIX\x00.4\x00\x00.4" // NUL bytes in the BeginString value
+		}
+		w, err := m.Build().ToBytes()
+		if err != nil {
+			continue
+		}
+		tm := m.TemplateMsg()
+		if s, ok := accepted(tm, w); !ok {
+			emit(&Rec{ID: id, Mode: "damage", Case: "UNMARSHAL O 0 " + tm.Enc() + " " + desc.Hex(w), Impl: s, Skip: true,
+				Oracle: map[string]string{"C03": "skip: the undamaged message is not accepted (" + s + "); C02's concern"}})
+			id++
+			continue
+		}
+		total, acc := 0, 0
+		var firstAcc []byte
+		var firstKind string
+		variants := func(kind string, v []byte) {
+			total++
+			if _, ok := accepted(tm, v); ok {
+				acc++
+				if firstAcc == nil {
+					firstAcc = append([]byte{}, v...)
+					firstKind = kind
+				}
+			}
+		}
+		buf := make([]byte, 0, len(w)+1)
+		for p := 0; p < len(w); p++ { // substitutions
+			for c := 0; c < 256; c++ {
+				if byte(c) == w[p] {
+					continue
+				}
+				buf = append(buf[:0], w...)
+				buf[p] = byte(c)
+				variants("substitute", buf)
+			}
+		}
+		for p := 1; p < len(w); p++ { // interior insertions
+			for c := 0; c < 256; c++ {
+				buf = append(buf[:0], w[:p]...)
+				buf = append(buf, byte(c))
+				buf = append(buf, w[p:]...)
+				variants("insert", buf)
+			}
+		}
+		for p := 0; p < len(w); p++ { // deletions
+			buf = append(buf[:0], w[:p]...)
+			buf = append(buf, w[p+1:]...)
+			variants("delete", buf)
+		}
+		for k := 0; k < len(w); k++ { // proper prefixes
+			variants("prefix", w[:k])
+		}
+		sum := &Rec{ID: id, Mode: "damage", Skip: true, Size: len(w),
+			Case: "UNMARSHAL " + oracleTable(needOracle(m), w) + " " + tm.Enc() + " " + desc.Hex(w),
+			Impl: fmt.Sprintf("neighbourhood=%d accepted=%d", total, acc), Oracle: map[string]string{},
+			Tags: []string{sizeTag(len(w)), fmt.Sprintf("variants=%d", total)}}
+		if acc > 0 {
+			sum.Oracle["C03"] = fmt.Sprintf("fail: %d damaged variants accepted; first (%s): %s", acc, firstKind, desc.Hex(firstAcc))
+		} else {
+			sum.Oracle["C03"] = "ok"
+		}
+		emit(sum)
+		id++
+		// stratified sample for the model: all positions, a few byte values, plus the original
+		sample := [][]byte{w}
+		if firstAcc != nil {
+			sample = append(sample, firstAcc)
+		}
+		vals := []byte{0, 1, '=', '0', '9', 0xff, byte(r.Intn(256))}
+		for p := 0; p < len(w); p++ {
+			c := vals[(p+i)%len(vals)]
+			if c != w[p] {
+				b := append([]byte{}, w...)
+				b[p] = c
+				sample = append(sample, b)
+			}
+			if p > 0 && p%3 == i%3 {
+				b := append(append(append([]byte{}, w[:p]...), vals[(p+1)%len(vals)]), w[p:]...)
+				sample = append(sample, b)
+			}
+			if p%2 == i%2 {
+				sample = append(sample, append(append([]byte{}, w[:p]...), w[p+1:]...))
+			}
+			if p%4 == i%4 {
+				sample = append(sample, w[:p])
+			}
+		}
+		want := "-"
+		if m.Bs != "" {
+			want = desc.Hex([]byte(m.Bs))
+		}
+		for _, v := range sample {
+			rec := &Rec{ID: id, Mode: "validate", Oracle: map[string]string{}, Size: len(v)}
+			rec.Case = "VALIDATE " + desc.Hex([]byte(m.BsTag)) + " " + desc.Hex([]byte(m.BlTag)) + " " + desc.Hex([]byte(m.CsTag)) + " " + want + " " + desc.Hex(v)
+			var err error
+			p := guarded(func() { err = encoding.VerifValidateRaw(tm.Build(), v, true) })
+			switch {
+			case p != "":
+				rec.Impl = "PANIC"
+			case err != nil:
+				rec.Impl = "ERR"
+			default:
+				rec.Impl = "OK"
+			}
+			emit(rec)
+			id++
+		}
+	}
+}
+
+// ---------- C18: lookups against the boundary-anchored specification ----------
+
+// specLookup is the exact-tag, boundary-anchored specification: the value of the first field
+// (at the start of the message or after a delimiter) whose whole tag is t.
+func specLookup(b []byte, t string) ([]byte, bool) {
+	for _, seg := range bytes.Split(b, []byte{1}) {
+		if bytes.HasPrefix(seg, []byte(t+"=")) {
+			return seg[len(t)+1:], true
+		}
+	}
+	return nil, false
+}
+
+func modeLookup(root *rng.R, n int) {
+	id := 0
+	for i := 0; i < n; i++ {
+		r := root.Fork()
+		o := gen.DefaultOpts()
+		o.FixedFraming = true
+		o.MaxDepth = r.Range(1, 4)
+		o.PopulateProb = []int{30, 60, 90}[r.Intn(3)]
+		g := gen.New(r, o)
+		m := g.Message()
+		runRoundTrip(id, m, "decoys")
+		id++
+		b, err := m.Build().ToBytes()
+		if err != nil {
+			continue
+		}
+		// every template tag, plus look-alikes of it, looked up on the raw bytes
+		var tags [][2]string
+		collectTags(m.Header, false, &tags)
+		collectTags(m.Body, false, &tags)
+		collectTags(m.Trailer, false, &tags)
+		tags = append(tags, [2]string{"8", "BS"}, [2]string{"9", "BL"}, [2]string{"35", "MT"}, [2]string{"10", "CS"}, [2]string{"34", "SEQ"})
+		for _, tk := range tags {
+			cands := []string{tk[0]}
+			if len(tk[0]) > 1 {
+				cands = append(cands, tk[0][1:], tk[0][:len(tk[0])-1])
+			}
+			cands = append(cands, "1"+tk[0], tk[0]+"0")
+			for _, t := range cands {
+				rec := &Rec{ID: id, Mode: "valbytag", Oracle: map[string]string{}, Tags: []string{"lookup-" + tk[1]}, Size: len(b)}
+				rec.Case = "VALBYTAG " + desc.Hex(b) + " " + desc.Hex([]byte(t))
+				var v []byte
+				var e error
+				p := guarded(func() { v, e = fix.ValueByTag(b, t) })
+				want, found := specLookup(b, t)
+				switch {
+				case p != "":
+					rec.Impl = "PANIC"
+					rec.Oracle["C18"] = "fail: panic " + p
+				case e != nil:
+					rec.Impl = "ERR"
+					if found {
+						rec.Oracle["C18"] = fmt.Sprintf("fail: tag %s not found although a field %s=%q exists", t, t, want)
+					} else {
+						rec.Oracle["C18"] = "ok"
+					}
+				default:
+					rec.Impl = "OK " + desc.Hex(v)
+					if !found {
+						rec.Oracle["C18"] = fmt.Sprintf("fail: lookup of tag %s returned %q but no field has that tag", t, v)
+					} else if !bytes.Equal(v, want) {
+						rec.Oracle["C18"] = fmt.Sprintf("fail: lookup of tag %s returned %q, the field holds %q", t, v, want)
+					} else {
+						rec.Oracle["C18"] = "ok"
+					}
+				}
+				emit(rec)
+				id++
+			}
+		}
+	}
+}
